@@ -54,9 +54,13 @@ def _run_one(args):
         path = os.path.join(tmp, "src", "onnx_ir", v.file)
         with open(path, encoding="utf-8") as fh:
             src = fh.read()
-        if src.count(v.old) < 1:
+        olds = v.old if isinstance(v.old, (list, tuple)) else [v.old]
+        news = v.new if isinstance(v.new, (list, tuple)) else [v.new]
+        if any(src.count(o) < 1 for o in olds):
             return (v.name, "not-applicable", "anchor text not found")
-        new_src = src.replace(v.old, v.new, v.count)
+        new_src = src
+        for o, n in zip(olds, news):
+            new_src = new_src.replace(o, n, v.count)
         try:
             compile(new_src, path, "exec")
         except SyntaxError as e:
